@@ -98,7 +98,7 @@ theorem code_isUserAuthenticated (c : Cfg) (e : Env) (v : View) (t : Go.Inst) (s
     (hT : sess.GetAccessToken = getToken e.decompress v .access)
     (hG : t.refreshGracePeriod = c.grace * 1000000000)
     (hP : (t.parseJWT sess.GetAccessToken).2.isNone = (e.tok sess.GetAccessToken).parses)
-    (hV : (t.VerifyJWTSignatureAndClaims (t.parseJWT sess.GetAccessToken).1 sess.GetAccessToken).isNone
+    (hV : (Code.TraefikOidc_VerifyJWTSignatureAndClaims (e.now * 1000000000) t (t.parseJWT sess.GetAccessToken).1 sess.GetAccessToken).isNone
             = decide ((e.tok sess.GetAccessToken).verdict e.now = .accept))
     (hE : (e.tok sess.GetAccessToken).verdict e.now = .accept →
             ∃ x, Go.asF64 (Go.mapGet (t.parseJWT sess.GetAccessToken).1.Claims "exp".toList) = (x, true) ∧
